@@ -105,6 +105,9 @@ def yearStr (y : Int) : List Char :=
 /-- seconds since the epoch, rounded down (the `datetime` fields of an instant; `%S` ignores µs) -/
 def epochSeconds (t : Int) : Int := t / usPerSecond
 
+/-- the civil (UTC) year of an instant -/
+def yearOf (t : Int) : Int := (civilOfDays (epochSeconds t / 86400)).year
+
 def formatDatetimeChars (t : Int) : List Char :=
   let s := epochSeconds t
   let c := civilOfDays (s / 86400)
